@@ -17,7 +17,7 @@ func init() {
 		ID:          "C10",
 		Explanation: "Decided: (order) a package's declarations are assembled as imports, types, variables, functions; implicitly initialised variables precede the explicit initialisers, which follow go/types' InitOrder; the call of main is the last function decl; the package $init replaces itself first (runs once), emits InitCode in decl order, and import initialisers are blocking and flattened; dependencies are linked in post-order with runtime first; the program-level chain $finishSetup ≺ method synthesis ≺ $initLinknames ≺ runtime init ≺ main init; (files) files are ordered by name only, before type checking; (linkname) the three unsupported uses are rejected on error paths, implementations are registered in $linknames during $finishSetup and references bound in $initLinknames afterwards, method implementations go through $unsafeMethodToFunction with the pointer flag taken from the symbol. NOT decided: the run-time order for every import DAG; behaviour of blocking initialisers.",
 		Assumptions: []string{"go/types' InitOrder is the specification's variable initialisation order"},
-		Rules:       []RuleFunc{ruleC10Order, ruleC17Order, ruleC10Linkname, ruleAssembly, ruleC09Mname, ruleC10SymbolRoundTrip, ruleC10LinknameSplit, ruleC05LinknamesBeforeSelection, ruleC10ExportedReference, ruleBlockingOnlyGrows},
+		Rules:       []RuleFunc{ruleC10Order, ruleC17Order, ruleC10Linkname, ruleAssembly, ruleC09Mname, ruleC10SymbolRoundTrip, ruleC10LinknameSplit, ruleC05LinknamesBeforeSelection, ruleC10ExportedReference, ruleBlockingOnlyGrows, ruleC10LocalSymbolIsFunction},
 	})
 }
 
